@@ -88,6 +88,11 @@ SQL_EDITS = (
     ("join", ("K",), None, False, ("b",), "direct"),
     ("join", ("K",), ("only", "iteration", ("gt", R("d"), R("a"))), False, ("a",), "direct"),
     ("join", ("K",), ("only", "iteration", ("gt", R("d"), R("a"))), True, None, "direct"),
+    # unresolved explicit common-column requests that cannot be met
+    ("join", ("K",), None, False, ("mm", ("b",), None)),
+    ("join", ("K",), None, True, ("mm", ("a",), ("b",))),
+    ("join", ("K",), None, False, ("mm", ("d",), None), "direct"),
+    ("join", ("K",), None, False, ("mm", ("a", "b"), ("a", "b", "c")), "direct"),
 )
 MULTI_EDITS = (
     ("join", ("I1",), None, False),
